@@ -54,7 +54,9 @@ RULE = ("every entry point (%d ops of goexec/total.go, each calling the decoder 
 EXHAUSTIVE = False
 MAX_REPORTS = 40
 ASSUMPTIONS = ["a call is a hang when it runs > 3 s or the heap exceeds 768 MiB (goexec watchdog), confirmed by one re-run in a fresh process",
-               "memory/time bounds are observed, not proved (DESIGN section 10); read-only = input snapshot compared after the call",
+               "memory bounds are theorems for the decoder MODELS listed in Properties/C05Bound.v (ProgramMap, NewPMT streams, NewSCTE35 descriptor loop, "
+               "ReadEncoderBoundaryPoint, accumulator, state tracker); for the real code memory and time are observed by the goexec watchdog only; "
+               "read-only = input snapshot compared after the call",
                "model side of the tot.* ops: the printers (String(), Format(), fmt %v / Sprint of a result) are modelled by the index / slice / decoder "
                "operations they perform (Model/Printers.v), not by their text; fmt's rule 'call Error()/String() when the operand has one, else print the "
                "fields by reflection' is transcribed there and trusted; fmt's recovery of a panicking String() is not modelled (the model panics where "
@@ -62,8 +64,9 @@ ASSUMPTIONS = ["a call is a hang when it runs > 3 s or the heap exceeds 768 MiB 
                "cli/parsefile.go: the binary is built from a copy of the tree and run with a 5 s timeout and a 4 GiB address-space limit; a panic is "
                "recognised from stderr ('panic:' / 'goroutine '); its explicit panic(err) on a ReadPMT error is a pending finding (notes/findings/C05-cli.md) "
                "printed as KNOWN-FINDING"]
-PARTIAL = ("proof covers panic-freedom / termination of the modelled entry points (Properties/C05.v lists them); "
-           "memory and time bounds and aliasing are runtime observations made by goexec only")
+PARTIAL = ("proof covers panic-freedom / termination of the modelled entry points and of the printers' panic-relevant operations "
+           "(Properties/C05*.v), and size bounds of the results of six decoder models (Properties/C05Bound.v: ProgramMap, NewPMT, NewSCTE35, "
+           "ReadEncoderBoundaryPoint, accumulator, state tracker; not NewPESHeader, FilterPMTPacketsToPids, the stream readers); time bounds of the real code and aliasing are runtime observations made by goexec only")
 
 
 def seeds():
@@ -419,8 +422,9 @@ LEVEL_TEXT = ("Proof (partial, see level_note): the decoder models live in a Res
               "byte/bit corruptions of valid vectors and on random input, next to the model op of the same name; any panic, hang, heap "
               "blow-up or modified input buffer is reported with the input, a difference of outcome class as a correspondence break. "
               "The command-line tool is built and run on mutated transport-stream files.")
-LEVEL_NOTE = ("Partial: time/memory bounds and non-modification of caller buffers are runtime observations (goexec watchdog and "
-              "snapshots), not theorems; the text produced by the printers and the cli binary have no model (the printers' panic-relevant "
+LEVEL_NOTE = ("Partial: time bounds and non-modification of caller buffers are runtime observations (goexec watchdog and "
+              "snapshots), not theorems; memory bounds are theorems about the decoder MODELS where Properties/C05Bound.v states them "
+              "(NewPESHeader, FilterPMTPacketsToPids and the stream readers are not covered), for the real code memory is watched by goexec; the text produced by the printers and the cli binary have no model (the printers' panic-relevant "
               "operations, psi.CanBuildPMT and the state-tracker calls at the end of scte.new are modelled and proved total: Properties/C05Tot.v). Trusted: Coq kernel, model transcription, executor glue, Go runtime.")
 TECHNIQUE = "Coq totality theorems over Res-monad models (no Panic/Diverge for all inputs) + malformed-input differential run of every real entry point against the model op of the same name + cli binary on mutated files"
 
